@@ -1,0 +1,137 @@
+//! Verification hook (cfg `emmyluals_emmylua_analyzer_rust_verif` only; absent from normal builds).
+//!
+//! Drop-in wrappers of `tokio::sync::{RwLock, Mutex}` that record, per task, every lock acquisition
+//! (after it was granted) and every release (when the guard is dropped).  With the cfg on, the modules
+//! of this crate import `RwLock` / `Mutex` from here instead of from tokio; nothing else changes.
+//! A harness enables recording with `verif_lock_trace_enable(true)` and collects the events with
+//! `verif_lock_trace_take()`.
+use std::ops::{Deref, DerefMut};
+use std::sync::atomic::{AtomicBool, Ordering};
+
+static ENABLED: AtomicBool = AtomicBool::new(false);
+static TRACE: std::sync::Mutex<Vec<(String, &'static str, &'static str)>> = std::sync::Mutex::new(Vec::new());
+const CAP: usize = 400_000;
+
+/// (task, event, lock): task = tokio task id or "main" (the block_on future / a non-task thread);
+/// event = "read" | "write" | "lock" (granted) | "rel" (guard dropped); lock = the name of the protected type
+pub fn verif_lock_trace_take() -> Vec<(String, &'static str, &'static str)> {
+    std::mem::take(&mut *TRACE.lock().unwrap())
+}
+
+pub fn verif_lock_trace_enable(on: bool) {
+    ENABLED.store(on, Ordering::SeqCst);
+}
+
+fn lock_name<T>() -> &'static str {
+    let n = std::any::type_name::<T>();
+    if n.contains("EmmyLuaAnalysis") {
+        "analysis"
+    } else if n.contains("WorkspaceManager") {
+        "workspace_manager"
+    } else if n.contains("FileId") {
+        "diagnostic_tokens"
+    } else if n.contains("oneshot") {
+        "response_manager"
+    } else if n.contains("RequestId") {
+        "cancellations"
+    } else if n.contains("Option<") {
+        "workspace_diagnostic_token"
+    } else if n == "()" {
+        "reload_lock"
+    } else {
+        n
+    }
+}
+
+fn record(event: &'static str, lock: &'static str) {
+    if !ENABLED.load(Ordering::Relaxed) {
+        return;
+    }
+    let task = match tokio::task::try_id() {
+        Some(id) => id.to_string(),
+        None => "main".to_string(),
+    };
+    let mut t = TRACE.lock().unwrap();
+    if t.len() < CAP {
+        t.push((task, event, lock));
+    }
+}
+
+pub struct RwLock<T>(tokio::sync::RwLock<T>);
+
+pub struct ReadGuard<'a, T>(tokio::sync::RwLockReadGuard<'a, T>, &'static str);
+pub struct WriteGuard<'a, T>(tokio::sync::RwLockWriteGuard<'a, T>, &'static str);
+
+impl<T> RwLock<T> {
+    pub fn new(value: T) -> Self {
+        RwLock(tokio::sync::RwLock::new(value))
+    }
+    pub async fn read(&self) -> ReadGuard<'_, T> {
+        let g = self.0.read().await;
+        record("read", lock_name::<T>());
+        ReadGuard(g, lock_name::<T>())
+    }
+    pub async fn write(&self) -> WriteGuard<'_, T> {
+        let g = self.0.write().await;
+        record("write", lock_name::<T>());
+        WriteGuard(g, lock_name::<T>())
+    }
+}
+
+impl<T> Deref for ReadGuard<'_, T> {
+    type Target = T;
+    fn deref(&self) -> &T {
+        &self.0
+    }
+}
+impl<T> Drop for ReadGuard<'_, T> {
+    fn drop(&mut self) {
+        record("rel", self.1);
+    }
+}
+impl<T> Deref for WriteGuard<'_, T> {
+    type Target = T;
+    fn deref(&self) -> &T {
+        &self.0
+    }
+}
+impl<T> DerefMut for WriteGuard<'_, T> {
+    fn deref_mut(&mut self) -> &mut T {
+        &mut self.0
+    }
+}
+impl<T> Drop for WriteGuard<'_, T> {
+    fn drop(&mut self) {
+        record("rel", self.1);
+    }
+}
+
+pub struct Mutex<T>(tokio::sync::Mutex<T>);
+pub struct LockGuard<'a, T>(tokio::sync::MutexGuard<'a, T>, &'static str);
+
+impl<T> Mutex<T> {
+    pub fn new(value: T) -> Self {
+        Mutex(tokio::sync::Mutex::new(value))
+    }
+    pub async fn lock(&self) -> LockGuard<'_, T> {
+        let g = self.0.lock().await;
+        record("lock", lock_name::<T>());
+        LockGuard(g, lock_name::<T>())
+    }
+}
+impl<T> Deref for LockGuard<'_, T> {
+    type Target = T;
+    fn deref(&self) -> &T {
+        &self.0
+    }
+}
+impl<T> DerefMut for LockGuard<'_, T> {
+    fn deref_mut(&mut self) -> &mut T {
+        &mut self.0
+    }
+}
+impl<T> Drop for LockGuard<'_, T> {
+    fn drop(&mut self) {
+        record("rel", self.1);
+    }
+}
